@@ -10,7 +10,7 @@ from ..dsl import (Cfg, Spec, Sym, Con, E, X, U, Pg, t, T, t0, nl1, C, at_t0, at
 from ..extract import quiet
 from ..instance import Inst
 from ..match import Checker, close
-from ..sx2smt import emb, RockitRaised
+from ..sx2smt import emb, RockitRaised, HarnessError
 from .common import describe_violation, result, impl_atoms
 
 PROP = 'C15'
@@ -122,6 +122,9 @@ def instances(tier, seed):
     sb.cons = [Con('<=', X(0), E('cvec', (Fr(1, 5), Fr(5), Fr(4), Fr(3), Fr(2))), grid='inf'), Con('==', at_t0(X(0)), 0), Con('<=<=', -50, 50, mid=U(0))]
     for method, intg in (('MS', 'rk'), ('DC', None)):
         add(kind='sufficiency', spec=fam.with_horizon(sb, hz[1]), cfg=Cfg(method, N=2, M=1, intg=intg or 'rk', grid=fam.G_UNI, degree=4, scheme='radau'), reject_ok=True, twin=False)
+    # a grid='inf' body that depends on a B-spline signal: rejected, or sufficient
+    for method in ('MS', 'DC'):
+        add(kind='signal-inf', method=method)
     # rejection of bodies without a certificate
     for method in ('MS', 'DC'):
         s = Spec(nx=1, nu=1, ode=[U(0)], note='non-polynomial inf body')
@@ -130,7 +133,85 @@ def instances(tier, seed):
     return items
 
 
+def run_signal_inf(item):
+    """a grid='inf' constraint that depends on a B-spline signal (which moves inside the interval but is no step polynomial): rejected, or
+    sufficient -- every NLP row satisfied implies the body <= 0 on the refined integrator grid (z3 over states, controls; counterexample replayed)"""
+    import z3
+    import numpy as np
+    from ..extract import Ocp, MultipleShooting, DirectCollocation, quiet
+    from .c17 import Ctx, _trace
+    method = item['method']
+    ctx = Ctx()
+    shape = 'signal-inf %s' % method
+    try:
+        with quiet():
+            ocp = Ocp(t0=0, T=2)
+            x = ocp.state()
+            u = ocp.control()
+            sg = ocp.parameter(grid='bspline', order=2)
+            ocp.set_value(sg, ca.DM([[1, 1, -1, 1]]))
+            ocp.set_der(x, u)
+            ocp.subject_to(-1 <= (u <= 1))
+            ocp.subject_to(x - sg <= 0, grid='inf')
+            ocp.subject_to(ocp.at_t0(x) == -1)
+            ocp.add_objective(-ocp.integral(x))
+            ocp.method(MultipleShooting(N=2, M=1, intg='rk') if method == 'MS' else DirectCollocation(N=2, M=1, degree=4))
+            ocp.solver('ipopt')
+            body = ocp.sample(x - sg, grid='integrator', refine=8)[1]
+            opti = ocp._method.opti
+            prog, zin, out = _trace(ocp, [opti.g, body], ctx)
+            lbv = np.array(opti.debug.value(opti.lbg, opti.initial())).flatten()
+            ubv = np.array(opti.debug.value(opti.ubg, opti.initial())).flatten()
+            pvals = {str(s_): np.array(opti.debug.value(s_, opti.initial())).flatten() for s_ in opti.advanced.symvar() if opti.advanced.is_parametric(s_)}
+    except Exception as e:
+        if 'spline' in str(e).lower():
+            ctx.proved.append('rejected: %s' % str(e).strip().splitlines()[-1][:120])
+            return ctx.result(shape, {'kind': 'signal-inf', 'rejected': True})
+        ctx.viol.append({'property': PROP, 'key': 'raises|signal-inf|%s' % method, 'label': 'x - s <= 0, grid=inf', 'detail': 'raised: %s' % str(e).strip().splitlines()[-1][:200]})
+        return ctx.result(shape, {'kind': 'signal-inf', 'raised': True})
+    gz, bz = out[0], out[1]
+    syms = [s_ for s_ in opti.advanced.symvar()]
+    # parameters carry their given values
+    for s_, grp in zip(syms, zin):
+        if str(s_) in pvals:
+            for v_, val in zip(grp, pvals[str(s_)]):
+                ctx.s.add(v_ == z3.RealVal(repr(float(val))))
+    for i, g_ in enumerate(gz):
+        if np.isfinite(lbv[i]):
+            ctx.s.add(g_ >= z3.RealVal(repr(float(lbv[i]))))
+        if np.isfinite(ubv[i]):
+            ctx.s.add(g_ <= z3.RealVal(repr(float(ubv[i]))))
+    ctx.s.set('timeout', 60000)
+    ctx.s.push()
+    ctx.s.add(z3.Or(*[b_ > z3.RealVal('1/1000') for b_ in bz]))
+    r = str(ctx.s.check())
+    mdl = ctx.s.model() if r == 'sat' else None
+    ctx.s.pop()
+    ctx.stats[r] += 1
+    ctx.stats['queries'] += 1
+    if r == 'unsat':
+        ctx.proved.append('all NLP rows imply x - s <= 0 on the refined grid')
+    elif r == 'sat':
+        def fv(v_):
+            q = mdl.eval(v_, model_completion=True)
+            return float(q.numerator_as_long()) / float(q.denominator_as_long()) if z3.is_rational_value(q) else float(q.approx(20).as_fraction())
+        pt = [[fv(v_) for v_ in grp] for grp in zin]
+        fo = prog.run(ctx.fdom, pt)
+        feas = all((not np.isfinite(lbv[i]) or fo[0][i] >= lbv[i] - 1e-7) and (not np.isfinite(ubv[i]) or fo[0][i] <= ubv[i] + 1e-7) for i in range(len(lbv)))
+        worst = max(float(v_) for v_ in fo[1])
+        if feas and worst > 1e-4:
+            ctx.viol.append({'property': PROP, 'key': 'insufficient|signal-inf|%s' % method, 'label': 'x - s <= 0, grid=inf, s a bspline parameter',
+                             'detail': 'decision vector satisfies every NLP row but x - s reaches %+.4g on the refined integrator grid (replayed on the real NLP functions): the signal was frozen inside the certificate' % worst})
+        else:
+            raise HarnessError('signal-inf counterexample did not replay (feasible=%s, worst=%r)' % (feas, worst))
+    else:
+        ctx.incon.append({'label': 'signal-inf', 'why': 'solver ' + r})
+    return ctx.result(shape, {'kind': 'signal-inf', 'method': method})
+
+
 def run(item):
+    if item.get('kind') == 'signal-inf':
+        return run_signal_inf(item)
     spec, cfg = item['spec'], item['cfg']
     N, M = cfg.N, cfg.M
     if item['kind'] == 'reject':
